@@ -135,6 +135,7 @@ def replay_population(col, item):
             fs.exclude_files([path_of(i) for i in xn])
             fs.exclude_times([(emb.t(a), emb.t(b)) for a, b in xp] or None)
             flt = filters_of(white, black)
+            before = dict(flt) if flt else flt
             variant = n % 4
             abstract = {"F": case["F"], "query": {"s": s, "e": e, "xnames": xn, "xperiods": xp,
                                                    "white": white, "black": black}}
@@ -155,6 +156,16 @@ def replay_population(col, item):
             elif any(times[a] > times[b] for a, b in zip(got, got[1:])):
                 col.violation(fingerprint("find-order", q), {"abstract": abstract, "concrete": concrete,
                                                              "expected": "ordered by (t0,t1)", "observed": got})
+            elif before:
+                # the caller's filter dictionary is the caller's: unchanged after the call, and good for a second call
+                try:
+                    again = ids_of(call_find(tree, fs, emb, s, e, flt, end_variant=variant))
+                except Exception as ex:
+                    again = "raised " + type(ex).__name__
+                if flt != before or again != got:
+                    col.violation(fingerprint("find-second-call-with-same-filters", q),
+                                  {"abstract": abstract, "concrete": concrete, "expected": got, "observed": again,
+                                   "filters_after": repr(flt)})
             if any(times[i][1] == s or times[i][0] == e or times[i][0] == e - 1 for i in times) or xp or xn:
                 col.nontrivial.add((json.dumps(case["F"]), s, e, json.dumps(xp), json.dumps(xn), layout))
         fs.exclude_files([])
